@@ -84,8 +84,60 @@ def run(ctx, w):
     ctx.floor("T0", 20, "Ground-state cells")
 
 
+def text_semantics(w, S, fn, thorough=False):
+    """Buffer::text evaluated on concrete small buffers: 1..3 rows (4 in the thorough tier) of width 3, every row one of
+    "abc", "a  ", " b ", "   ", every pattern of soft-wrap marks with the last row unmarked (the invariant of C02), with and
+    without scrollback rows above: the result is, for each maximal run of marked rows closed by an unmarked one, the rows'
+    texts joined and trimmed at the end only.  -> (True, n) | (False, what)"""
+    import itertools
+    from rules import prims, c11
+    PEN = ("sym", "PEN")
+    alphabet = ("abc", "a  ", " b ", "   ")
+    n = 0
+
+    def line(txt, wrapped):
+        return ("obj", S.line_ty, {S.cells_field: prims.Vec([("v", "cell::Cell", (("chr", ord(c)), PEN)) for c in txt]), S.wrap_field: wrapped})
+    for rows in range(1, 5 if thorough else 4):
+        for texts in itertools.product(alphabet, repeat=rows):
+            for marks in itertools.product((False, True), repeat=rows - 1):
+                marks = list(marks) + [False]
+                bf = {f["name"]: (0 if f["ty"]["s"] == "usize" else False if f["ty"]["s"] == "bool" else H.NONE_V) for f in w.facts.struct_fields(S.buffer_ty)}
+                bf.update({S.lines_field: prims.Vec([line(t, m) for t, m in zip(texts, marks)]), S.buf_cols: 3, S.buf_rows: min(rows, 2)})
+                try:
+                    r = c11.StrInterp(w.facts).call_fn(fn, [("obj", S.buffer_ty, bf)])
+                    got = [x[1] for x in r.items] if isinstance(r, prims.Vec) and all(isinstance(x, tuple) and x[0] == "str" for x in r.items) else repr(r)
+                except prims.errs() as ex:
+                    return False, "cannot evaluate %s: %s" % (fn, ex)
+                want, cur = [], ""
+                for t, m in zip(texts, marks):
+                    cur += t
+                    if not m:
+                        want.append(cur.rstrip(" "))
+                        cur = ""
+                n += 1
+                if got != want:
+                    return False, "rows %s with soft-wrap marks %s give text() = %s, expected %s" % (list(texts), marks, got, want)
+    return True, n
+
+
 def text_rules(ctx, w, S, R):
     E = w.E
+    fn0 = None
+    for cs in E.call_sites("vt::Vt::text"):
+        if cs.local:
+            for c2 in E.call_sites(cs.callee):
+                if c2.local and S._impl_of(c2.callee) == S.buffer_ty:
+                    fn0 = c2.callee
+    ctx.rule("T12", "Buffer::text evaluated on concrete buffers (1..3 rows of width 3 over four row contents incl. blank and space-padded rows, every soft-wrap pattern): marked rows are joined in full, "
+                    "each logical line is trimmed at its end only, empty lines are kept")
+    sem_ok = False
+    if fn0:
+        okt, info = text_semantics(w, S, fn0, thorough=getattr(ctx, "tier", "") == "thorough")
+        ctx.check(okt, "T12", "text", str(info), loc=w.fn_loc(fn0), sample={"cases": info})
+        if okt:
+            ctx.rule_counts["T12"] = info
+            sem_ok = True
+    ctx = shared.Deferred(ctx, {"T1"}, sem_ok)          # the accumulate / emit shape of the same clause
     ctx.rule("T1", "Buffer::text: append each row's full text; when the row is not soft-wrapped emit trim_end(accumulated) and reset; flush a trailing partial line")
     fn = None
     for cs in E.call_sites("vt::Vt::text"):
